@@ -2147,7 +2147,10 @@ impl<'a, R: FileManager> FrontendCtx<'a, R> {
         visibility: Visibility,
         anchor: &Anchor,
     ) -> Res<Runtype> {
-        if let TsEntityName::Ident(ident) = type_name {
+        // type parameters are lexical: an exported name of another file (`import("./x").T`) is never one
+        if let TsEntityName::Ident(ident) = type_name
+            && matches!(visibility, Visibility::Local)
+        {
             for (n, t) in self.type_application_stack.iter().rev() {
                 if ident.sym == *n {
                     return Ok(t.clone());
